@@ -596,6 +596,12 @@ def model_oracle(tok_lines, mask=0):
     return res
 
 
+def model_ghost(tok_lines, mask=0):
+    """proof layer 1 as a test: (states of anG and an equal, logged flags/case-stops = final map, body reason = map)"""
+    outs = run_model('cf', 'ghost', ["%d %s" % (mask, t) for t in tok_lines])
+    return [tuple(_parse_ints(o)) for o in outs]
+
+
 def has_violation(o):
     return bool(o["c10"] or o["getter"] or o["cases"])
 
@@ -910,9 +916,13 @@ def compare_programs(progs, rng, mask=0, want_oracle=True):
     t3 = time.time()
     orc = model_oracle(toks, mask) if want_oracle else None
     orc_fixed = model_oracle(toks, ALL_FIXES) if want_oracle else None
+    ghost = model_ghost(toks, mask) + (model_ghost(toks, ALL_FIXES) if mask != ALL_FIXES else [])
     t4 = time.time()
     mism = []
-    stats = {"not_wf": 0, "model_panic": 0, "impl_error": 0, "info_entries": 0, "diags": 0,
+    for gi, gr in enumerate(ghost):
+        if gr != (1, 1, 1):
+            mism.append({"kind": "ghost analyzer != map analyzer (proof layer 1)", "src": srcs[gi % len(srcs)], "result": gr})
+    stats = {"not_wf": 0, "model_panic": 0, "impl_error": 0, "info_entries": 0, "diags": 0, "ghost_checks": len(ghost),
              "t_model": t1 - t0, "t_impl_cf": t2 - t1, "t_impl_rules": t3 - t2, "t_oracle": t4 - t3}
     for i, p in enumerate(progs):
         m = ma[i]
@@ -1059,8 +1069,8 @@ def summary(res):
     lines.append("  sizes: %s" % json.dumps(res["sizes"], sort_keys=True))
     lines.append("  wrappers: %s" % json.dumps(res["wrappers"], sort_keys=True))
     lines.append("  constructs: %s" % json.dumps(res["constructs"], sort_keys=True))
-    lines.append("  compared: %d info entries, %d diagnostics;  model != implementation: %d" %
-                 (res["info_entries"], res["diags"], res["n_mismatches"]))
+    lines.append("  compared: %d info entries, %d diagnostics, %d ghost-analyzer runs;  mismatches (model != implementation, ghost != model): %d" %
+                 (res["info_entries"], res["diags"], res["stats"].get("ghost_checks", 0), res["n_mismatches"]))
     for m in res["mismatches"][:5]:
         lines.append("    MISMATCH %s" % json.dumps({k: v for k, v in m.items() if k != "prog"})[:600])
     lines.append("  property violations (oracle on the faithful model = implementation): %d programs; C10 %d, C11 getter %d, C11 case %d; implementation-level C10 cross-check %d" %
